@@ -516,6 +516,9 @@ func (e *Engine) storeElem(s *State, ref, idx Term, et types.Type, v Term) {
 // ---------- values ----------
 
 func (e *Engine) zero(s *State, t types.Type) Val {
+	if vt := atomicValT(t); vt != nil {
+		return AtomV{V: e.zero(s, vt)}
+	}
 	switch u := t.Underlying().(type) {
 	case *types.Basic:
 		if u.Kind() == types.String {
@@ -550,6 +553,9 @@ func (e *Engine) zero(s *State, t types.Type) Val {
 
 // symbolic creates an unconstrained value of type t (for parameters).
 func (e *Engine) symbolic(s *State, name string, t types.Type) Val {
+	if vt := atomicValT(t); vt != nil {
+		return AtomV{V: e.symbolic(s, name+".v", vt)}
+	}
 	switch u := t.Underlying().(type) {
 	case *types.Basic:
 		so, ok := sortOf(t)
@@ -710,6 +716,9 @@ func (e *Engine) load(s *State, p PtrV, t types.Type) Val {
 
 // loadHeapVal reads a value of type t stored per-ref under heap name prefix nm.
 func (e *Engine) loadHeapVal(s *State, nm string, ref Term, t types.Type) Val {
+	if vt := atomicValT(t); vt != nil {
+		return AtomV{V: e.loadHeapVal(s, nm+"$v", ref, vt)}
+	}
 	switch u := t.Underlying().(type) {
 	case *types.Slice:
 		g := func(c string) Term {
@@ -771,6 +780,10 @@ func (e *Engine) loadHeapVal(s *State, nm string, ref Term, t types.Type) Val {
 }
 
 func (e *Engine) storeHeapVal(s *State, nm string, ref Term, t types.Type, v Val) {
+	if vt := atomicValT(t); vt != nil {
+		e.storeHeapVal(s, nm+"$v", ref, vt, v.(AtomV).V)
+		return
+	}
 	switch u := t.Underlying().(type) {
 	case *types.Slice:
 		sv := v.(SliceV)
@@ -1298,21 +1311,35 @@ func mapTag(m MapV) string {
 
 type mcomp struct{ name, sort string }
 
-// mapComps lists the per-key components a map value type is flattened into.
-func mapComps(m MapV) []mcomp {
-	switch u := m.V.Underlying().(type) {
+// mapLeaves lists the per-key components a map value of type t is flattened into (prefix "v" for the value itself;
+// a struct value contributes the leaves of its fields, named v$field...).
+func mapLeaves(t types.Type, prefix string) []mcomp {
+	switch u := t.Underlying().(type) {
 	case *types.Slice:
-		return []mcomp{{"v_ref", "Ref"}, {"v_off", ISort()}, {"v_len", ISort()}, {"v_cap", ISort()}}
+		return []mcomp{{prefix + "_ref", "Ref"}, {prefix + "_off", ISort()}, {prefix + "_len", ISort()}, {prefix + "_cap", ISort()}}
 	case *types.Pointer:
-		return []mcomp{{"v_ptr", "Ref"}}
+		return []mcomp{{prefix + "_ptr", "Ref"}}
 	case *types.Basic:
-		so, _ := sortOf(u)
-		return []mcomp{{"v", so}}
+		so, ok := sortOf(u)
+		if !ok {
+			panic("map value type unsupported: " + t.String())
+		}
+		return []mcomp{{prefix, so}}
 	case *types.Interface:
-		return []mcomp{{"v_dyn", "Ref"}}
+		return []mcomp{{prefix + "_dyn", "Ref"}}
+	case *types.Map:
+		return []mcomp{{prefix + "_map", "Ref"}}
+	case *types.Struct:
+		var out []mcomp
+		for i := 0; i < u.NumFields(); i++ {
+			out = append(out, mapLeaves(u.Field(i).Type(), prefix+"$"+u.Field(i).Name())...)
+		}
+		return out
 	}
-	panic("map value type unsupported: " + m.V.String())
+	panic("map value type unsupported: " + t.String())
 }
+
+func mapComps(m MapV) []mcomp { return mapLeaves(m.V, "v") }
 
 func (e *Engine) mread(s *State, m MapV, comp, vsort string, k Term) Term {
 	ks, _ := sortOf(m.K)
@@ -1342,9 +1369,11 @@ func (e *Engine) msetCard(s *State, m MapV, c Term) {
 	e.hset(s, nm, e.name(s, sto(h, m.Ref, c)), HWrite{Ref: m.Ref, Val: c})
 }
 
-func (e *Engine) mgetVal(s *State, m MapV, k Term) Val {
-	cs := mapComps(m)
-	switch u := m.V.Underlying().(type) {
+func (e *Engine) mgetVal(s *State, m MapV, k Term) Val { return e.mgetValT(s, m, k, m.V, "v") }
+
+func (e *Engine) mgetValT(s *State, m MapV, k Term, t types.Type, prefix string) Val {
+	cs := mapLeaves(t, prefix)
+	switch u := t.Underlying().(type) {
 	case *types.Slice:
 		sv := SliceV{e.wtRef(s, e.mread(s, m, cs[0].name, cs[0].sort, k)), e.mread(s, m, cs[1].name, cs[1].sort, k), e.mread(s, m, cs[2].name, cs[2].sort, k), e.mread(s, m, cs[3].name, cs[3].sort, k), u.Elem()}
 		e.sliceWF(s, sv)
@@ -1354,8 +1383,20 @@ func (e *Engine) mgetVal(s *State, m MapV, k Term) Val {
 	case *types.Interface:
 		r := e.wtRef(s, e.mread(s, m, cs[0].name, cs[0].sort, k))
 		return e.ifaceFromRef(r)
+	case *types.Map:
+		return MapV{Ref: e.wtRef(s, e.mread(s, m, cs[0].name, cs[0].sort, k)), K: u.Key(), V: u.Elem()}
+	case *types.Struct:
+		sv := StructV{T: u}
+		for i := 0; i < u.NumFields(); i++ {
+			sv.F = append(sv.F, e.mgetValT(s, m, k, u.Field(i).Type(), prefix+"$"+u.Field(i).Name()))
+		}
+		return sv
 	default:
-		return e.mread(s, m, cs[0].name, cs[0].sort, k)
+		v := e.mread(s, m, cs[0].name, cs[0].sort, k)
+		if cs[0].sort == "Str" && prefix != "v" {
+			return StrV{T: v}
+		}
+		return v
 	}
 }
 
@@ -1389,8 +1430,10 @@ func (e *Engine) ifaceRef(v IfaceV) Term {
 	panic(fmt.Sprintf("interface payload %T cannot be stored", v.V))
 }
 
-func (e *Engine) msetVal(s *State, m MapV, k Term, v Val) {
-	cs := mapComps(m)
+func (e *Engine) msetVal(s *State, m MapV, k Term, v Val) { e.msetValT(s, m, k, m.V, "v", v) }
+
+func (e *Engine) msetValT(s *State, m MapV, k Term, t types.Type, prefix string, v Val) {
+	cs := mapLeaves(t, prefix)
 	switch x := v.(type) {
 	case SliceV:
 		for i, t := range []Term{x.Ref, x.Off, x.Len, x.Cap} {
@@ -1399,13 +1442,25 @@ func (e *Engine) msetVal(s *State, m MapV, k Term, v Val) {
 	case PtrV:
 		r := refT(0)
 		if !x.Nil {
+			if x.Kind == "cell" || len(x.Path) > 0 {
+				panic("storing an interior/cell pointer into a map value is unsupported")
+			}
 			r = x.Ref
 		}
 		e.mwrite(s, m, cs[0].name, cs[0].sort, k, r)
 	case Term:
 		e.mwrite(s, m, cs[0].name, cs[0].sort, k, x)
+	case StrV:
+		e.mwrite(s, m, cs[0].name, cs[0].sort, k, e.strTerm(s, x))
 	case IfaceV:
 		e.mwrite(s, m, cs[0].name, cs[0].sort, k, e.ifaceRef(x))
+	case MapV:
+		e.mwrite(s, m, cs[0].name, cs[0].sort, k, x.Ref)
+	case StructV:
+		u := t.Underlying().(*types.Struct)
+		for i := 0; i < u.NumFields(); i++ {
+			e.msetValT(s, m, k, u.Field(i).Type(), prefix+"$"+u.Field(i).Name(), x.F[i])
+		}
 	default:
 		panic(fmt.Sprintf("msetVal %T", v))
 	}
@@ -1594,5 +1649,96 @@ func (x *session) ask(t string) string {
 			fmt.Println("SESSION ERROR:", l)
 			return "unknown"
 		}
+	}
+}
+
+// ---------- sync/atomic typed values ----------
+//
+// atomic.Int32/Int64/Uint32/Uint64/Uintptr/Bool/Pointer[T] are modelled by their SEQUENTIAL meaning: a cell holding
+// one value of the underlying type (Pointer[T]: a *T); Load/Store/Add/Swap/CompareAndSwap read and write that cell.
+// (The engine explores one goroutine; what other goroutines do to the cell is outside, as for every other field.)
+
+// AtomV is the value of such a cell when the enclosing struct is handled as a value.
+type AtomV struct{ V Val }
+
+func atomicValT(t types.Type) types.Type {
+	n, ok := t.(*types.Named)
+	if !ok || n.Obj().Pkg() == nil || n.Obj().Pkg().Path() != "sync/atomic" {
+		return nil
+	}
+	switch n.Obj().Name() {
+	case "Int32":
+		return types.Typ[types.Int32]
+	case "Int64":
+		return types.Typ[types.Int64]
+	case "Uint32":
+		return types.Typ[types.Uint32]
+	case "Uint64":
+		return types.Typ[types.Uint64]
+	case "Uintptr":
+		return types.Typ[types.Uintptr]
+	case "Bool":
+		return types.Typ[types.Bool]
+	case "Pointer":
+		if n.TypeArgs() != nil && n.TypeArgs().Len() == 1 {
+			return types.NewPointer(n.TypeArgs().At(0))
+		}
+	}
+	return nil
+}
+
+// atomicMethod: fn is a method of one of the modelled atomic types; returns the cell's value type.
+func atomicMethod(fn *ssa.Function) types.Type {
+	if fn.Signature.Recv() == nil {
+		return nil
+	}
+	pt, ok := fn.Signature.Recv().Type().(*types.Pointer)
+	if !ok {
+		return nil
+	}
+	return atomicValT(pt.Elem())
+}
+
+func (e *Engine) atomicCall(s *State, f *Frame, x ssa.Value, fn *ssa.Function, vt types.Type, args []Val) {
+	p := args[0].(PtrV)
+	e.nonNil(s, p, "atomic")
+	var nm string
+	switch {
+	case p.Kind == "struct" && len(p.Path) == 1 && p.Path[0].Field >= 0:
+		nm, _ = e.fieldHeapName(p, p.Path[0].Field)
+		nm += "$v"
+	case p.Kind == "hcell":
+		nm = "C$v"
+	default:
+		panic("atomic value at an unsupported location (" + p.Kind + ")")
+	}
+	cur := e.loadHeapVal(s, nm, p.Ref, vt)
+	set := func(v Val) { e.storeHeapVal(s, nm, p.Ref, vt, v) }
+	mname := fn.Name()
+	if i := strings.Index(mname, "["); i >= 0 { // an instance of a generic method: Load[pkg.T]
+		mname = mname[:i]
+	}
+	switch mname {
+	case "Load":
+		f.env[x] = cur
+	case "Store":
+		set(args[1])
+	case "Swap":
+		set(args[1])
+		f.env[x] = cur
+	case "Add":
+		nv := e.name(s, e.binop(s, token.ADD, cur.(Term), args[1].(Term), vt))
+		set(nv)
+		f.env[x] = nv
+	case "CompareAndSwap":
+		ct, ok := cur.(Term)
+		if !ok {
+			panic("CompareAndSwap on an atomic pointer is unsupported")
+		}
+		hit := e.name(s, eq(ct, args[1].(Term)))
+		set(e.name(s, ite(hit, args[2].(Term), ct)))
+		f.env[x] = hit
+	default:
+		panic("atomic method " + fn.Name() + " is unsupported")
 	}
 }
